@@ -120,7 +120,10 @@ class OpaqueV:
 UNIT = Agg("tuple", "()", [])
 
 
-def ite_val(c, a, b):
+_CUR_EX = [None]
+
+
+def ite_val(c, a, b, sts=None):
     """merge two values under condition c (a if c else b)"""
     if a is b:
         return a
@@ -137,10 +140,10 @@ def ite_val(c, a, b):
             return a
         return BoolV(z3.If(c, a.e, b.e))
     if isinstance(a, Agg) and isinstance(b, Agg) and len(a.fields) == len(b.fields):
-        return Agg(a.kind, a.name, [ite_val(c, x, y) for x, y in zip(a.fields, b.fields)])
+        return Agg(a.kind, a.name, [ite_val(c, x, y, sts) for x, y in zip(a.fields, b.fields)])
     if isinstance(a, Agg) and isinstance(b, Agg) and a.kind == "struct" and a.name == b.name == "NaiveDate":
         # one side carries specification-only ghost fields (year, ordinal): keep only the real field
-        return Agg(a.kind, a.name, [ite_val(c, a.fields[0], b.fields[0])])
+        return Agg(a.kind, a.name, [ite_val(c, a.fields[0], b.fields[0], sts)])
     if isinstance(a, Poison) or isinstance(b, Poison):
         return a if isinstance(a, Poison) else b
     if isinstance(a, EnumV) and isinstance(b, EnumV):
@@ -152,13 +155,20 @@ def ite_val(c, a, b):
             elif fb is None:
                 pl[k] = fa
             else:
-                pl[k] = [ite_val(c, x, y) for x, y in zip(fa, fb)]
+                pl[k] = [ite_val(c, x, y, sts) for x, y in zip(fa, fb)]
         d = a.disc if a.disc.eq(b.disc) else z3.If(c, a.disc, b.disc)
         return EnumV(a.name, d, pl)
-    if isinstance(a, RefV) and isinstance(b, RefV):
-        if a.frame == b.frame and a.place == b.place:
-            return a
-        raise Unsupported("merge of two different references")
+    if isinstance(a, RefV) and isinstance(b, RefV) and a.frame == b.frame and a.place == b.place:
+        return a
+    if isinstance(a, (RefV, ConstRef)) and isinstance(b, (RefV, ConstRef)):
+        # two different shared references meet at a join (e.g. `if c { &self.dst } else { &self.std }`): merge the
+        # referents as a read-only value. A later write through the merged reference is refused (ConstRef is not writable).
+        if sts is None or _CUR_EX[0] is None:
+            raise Unsupported("merge of two different references")
+        ex = _CUR_EX[0]
+        va = a.v if isinstance(a, ConstRef) else ex.read_place(sts[0], a.frame, a.place)
+        vb = b.v if isinstance(b, ConstRef) else ex.read_place(sts[1], b.frame, b.place)
+        return ConstRef(ite_val(c, va, vb, sts))
     if isinstance(a, OpaqueV) and isinstance(b, OpaqueV):
         return a
     raise Unsupported(f"cannot merge values {type(a).__name__} / {type(b).__name__}")
@@ -432,6 +442,8 @@ class Executor:
         self.const_cache = {}
         self.fresh_ctr = 0
         self.side = []  # side constraints (division lemmas for symbolic divisors)
+        _CUR_EX[0] = self
+        self.unwind = {}  # function name (raw MIR header) -> loop unrolling bound (checked: exceeding it is a panic edge)
         self.assumptions = list(assumptions or [])
         self.solver = None
         self.max_depth = max_depth
@@ -535,6 +547,11 @@ class Executor:
             return OpaqueV(t)
         if t in ("Utc", "offset::utc::Utc", "chrono::Utc"):
             return Agg("struct", "Utc", [])
+        if t in ("std::fmt::Error", "core::fmt::Error", "fmt::Error"):
+            return Agg("struct", "fmt::Error", [])
+        mr = re.fullmatch(r"Result::<.*>::Err\((?:std|core)::fmt::Error\)", t)
+        if mr:
+            return EnumV("Result", 1, {1: [Agg("struct", "fmt::Error", [])]})
         # named constant of the crate
         f = self.lookup_const(t)
         if f is not None:
@@ -890,6 +907,8 @@ class Executor:
                 return IntV(e if _fits_all(target) else wrap(e, target), target)
             if not isinstance(v, IntV):
                 raise Unsupported(f"IntToInt cast of {type(v).__name__}")
+            if target == "char" and v.ty == "u8":
+                return IntV(v.e, "u32", v.lowzero)    # u8 as char: the scalar value (chars are modelled as u32)
             if target not in INT_TYPES:
                 raise Unsupported(f"cast to {target}")
             lo, hi = trange(v.ty)
@@ -920,6 +939,10 @@ class Executor:
                     return IntV(-v.e - 1 if signed else ((1 << bits) - 1) - v.e, v.ty)
             if rv[1] == "Neg" and isinstance(v, IntV):
                 return IntV(self.norm(st, -v.e, v.ty), v.ty)
+            if rv[1] == "PtrMetadata":
+                a = self.load(st, v) if isinstance(v, (RefV, ConstRef)) else v
+                if isinstance(a, Agg) and a.kind == "array":
+                    return IntV(len(a.fields), "usize")      # length of a slice that is a fixed-size array
             raise Unsupported(f"unop {rv[1]}")
         if k == "cast":
             return self.cast(self.operand(st, frame, rv[1]), rv[2], rv[3])
@@ -1072,7 +1095,9 @@ class Executor:
         if len(segs) >= 2:
             owner = segs[-2]
             owner_generics = []
-            if owner.startswith("<") and len(segs) >= 3:
+            if owner.startswith("<impl ") and " for " not in owner:
+                owner = owner[len("<impl "):-1]        # `module::<impl Type>::method`: inherent impl in another module
+            elif owner.startswith("<") and len(segs) >= 3:
                 owner_generics = split_top(owner[1:-1])
                 owner = segs[-3]
             ALIASES = {"LocalResult": "MappedLocalTime"}   # `pub type LocalResult<T> = MappedLocalTime<T>`
@@ -1117,7 +1142,7 @@ class Executor:
     def intrinsic(self, st, callee, args):
         c = callee
         # panics
-        if re.search(r"(core|std)::panicking::|::panic_fmt|::panic_const|option::expect_failed|option::unwrap_failed|result::unwrap_failed|slice_index|begin_panic|::panic_display|assert_failed|^panic_display|^panic_fmt|^panic_nounwind|^unreachable_display", c):
+        if re.search(r"(core|std)::panicking::|::panic_fmt|::panic_const|option::expect_failed|option::unwrap_failed|result::unwrap_failed|slice_index|begin_panic|::panic_display|assert_failed|^panic_display|^panic_fmt|^panic_nounwind|^unreachable_display|^panic$|^panic_explicit$", c):
             self.panics.append((st.pc, f"call to {c}", "?"))
             return None, None
         m = re.fullmatch(r"(?:core|std)::num::<impl (\w+)>::(\w+)", c)
@@ -1176,6 +1201,8 @@ class Executor:
                 return st, IntV(0, sb)
             if tb in ("PartialEq", "PartialOrd", "Ord") and (sb in INT_TYPES or sb.startswith("NonZero")):
                 a, b = self.load(st, args[0]), self.load(st, args[1])
+                if tb == "Ord" and meth in ("min", "max") and sb in INT_TYPES:
+                    return st, IntV(z3.If((a.e <= b.e) if meth == "min" else (a.e >= b.e), a.e, b.e), sb)
                 return st, self.cmp_method(meth, a.e, b.e)
             if tb in ("PartialEq",) and sb == "()":
                 return st, BoolV(True)
@@ -1206,6 +1233,31 @@ class Executor:
         if m and m.group(2) in INT_TYPES:
             a, b = self.load(st, args[0]), self.load(st, args[1])
             return st, self.cmp_method(m.group(3), a.e, b.e)
+        m = re.fullmatch(r"(?:core|std)::slice::<impl \[(\w+)\]>::binary_search", c)
+        if m and m.group(1) in INT_TYPES:
+            # specification of slice::binary_search on a STRICTLY INCREASING slice of known length: Ok(i) with a[i] == key,
+            # else Err(number of elements below key). Strict monotonicity of the actual elements is proved here.
+            arr = self.load(st, args[0])
+            if isinstance(arr, ConstRef):
+                arr = arr.v
+            key = self.load(st, args[1])
+            if not (isinstance(arr, Agg) and arr.kind == "array" and isinstance(key, IntV)):
+                raise Unsupported("binary_search on something that is not a fixed-size integer array")
+            els = [f.e for f in arr.fields]
+            if len(els) >= 2 and not self.prove(st.pc, z3.And(*[els[i] < els[i + 1] for i in range(len(els) - 1)]), quick=False):
+                raise Unsupported("binary_search: cannot show the slice strictly increasing (std leaves the result unspecified otherwise)")
+            found = z3.Or(*[e == key.e for e in els]) if els else z3.BoolVal(False)
+            idx = z3.Sum(*[z3.If(e < key.e, 1, 0) for e in els]) if els else z3.IntVal(0)
+            iv = IntV(idx, "usize")
+            return st, EnumV("Result", z3.If(found, 0, 1), {0: [iv], 1: [iv]})
+        m = re.fullmatch(r"(?:(?:std|core)::ops::)?RangeInclusive::<(\w+)>::(new|contains)(::<.*>)?", c)
+        if m and m.group(1) in INT_TYPES:
+            if m.group(2) == "new":
+                return st, Agg("struct", "RangeInclusive", [args[0], args[1]])
+            r, v = self.load(st, args[0]), self.load(st, args[1])
+            if isinstance(r, Agg) and r.name == "RangeInclusive" and isinstance(v, IntV):
+                return st, BoolV(z3.And(r.fields[0].e <= v.e, v.e <= r.fields[1].e))
+            return NotImplemented
         m = re.fullmatch(r"(?:std|core)::time::Duration::(\w+)", c)
         if m:
             return self.std_duration(st, m.group(1), args)
@@ -1426,6 +1478,10 @@ class Executor:
         st0 = State(st.pc, dict(st.mem))
         for (loc, _), a in zip(f.params, args):
             st0.mem[(frame, loc)] = a
+        if self.unwind and not getattr(f, "_unrolled", False):
+            ub = next((n for k, n in self.unwind.items() if k in f.name), None)
+            if ub is not None:
+                unroll_loops(f, ub)
         order = topo_order(f)
         incoming = {b: [] for b in f.blocks}
         incoming[f.order[0]].append(st0)
@@ -1589,6 +1645,94 @@ def _bind_generics(impl_self, actual):
     return env
 
 
+def _succ(t):
+    k = t[0]
+    if k == "goto":
+        return [t[1]]
+    if k == "switch":
+        return [x for _, x in t[2]]
+    if k == "assert":
+        return [t[4]]
+    if k == "call":
+        return [t[4]] if t[4] else []
+    return []
+
+
+def _retarget(t, mp):
+    """terminator with successor names mapped through mp"""
+    k = t[0]
+    g = lambda x: mp.get(x, x)
+    if k == "goto":
+        return ("goto", g(t[1]))
+    if k == "switch":
+        return ("switch", t[1], [(v, g(x)) for v, x in t[2]])
+    if k == "assert":
+        return t[:4] + (g(t[4]),) + t[5:]
+    if k == "call":
+        return t[:4] + ((g(t[4]) if t[4] else t[4]),) + t[5:]
+    return t
+
+
+def unroll_loops(f, n):
+    """bounded unrolling as a CFG transform (done once per function): every natural loop is replaced by n copies of its
+    body; the back edge of the last copy leads to a block that calls core::panicking::panic_fmt ("unwinding bound"), i.e.
+    exceeding the bound is a panic edge that no_panic() has to refute -- the unrolling is checked, never silently cut.
+    Only non-nested loops are handled (inner loops first would be needed otherwise)."""
+    for _round in range(8):
+        succ = {b: _succ(t) for b, (_, t) in f.blocks.items()}
+        entry = f.order[0]
+        # find one back edge by DFS
+        state, back = {}, None
+        stack = [(entry, iter(succ[entry]))]
+        state[entry] = 1
+        while stack and back is None:
+            b, it = stack[-1]
+            nxt = next(it, None)
+            if nxt is None:
+                state[b] = 2
+                stack.pop()
+            elif state.get(nxt) == 1:
+                back = (b, nxt)
+            elif nxt not in state:
+                state[nxt] = 1
+                stack.append((nxt, iter(succ.get(nxt, []))))
+        if back is None:
+            f._unrolled = True
+            return
+        tail, header = back
+        # natural loop: header + everything that reaches tail without passing through header
+        pred = {}
+        for b, ss in succ.items():
+            for x in ss:
+                pred.setdefault(x, []).append(b)
+        body = {header, tail}
+        work = [tail] if tail != header else []
+        while work:
+            x = work.pop()
+            for q in pred.get(x, []):
+                if q not in body:
+                    body.add(q)
+                    work.append(q)
+        fail = f"bb_unwind_{header}"
+        f.blocks[fail] = ([], ("call", None, "core::panicking::panic_fmt", [], None))
+        f.order.append(fail)
+        orig = {b: f.blocks[b] for b in body}
+        # copy 0 keeps the original names; copy k (k >= 1) is named b#k
+        name = lambda b, k: b if k == 0 else f"{b}#{k}"
+        for k in range(n):
+            nxt_header = name(header, k + 1) if k + 1 < n else fail
+            mp = {b: name(b, k) for b in body}
+            mp_back = dict(mp)
+            for b in body:
+                stm, t = orig[b]
+                # edges to the header from inside the loop are back edges: they go to the next copy
+                t2 = _retarget(t, {**{x: mp[x] for x in body if x != header}, header: nxt_header})
+                f.blocks[name(b, k)] = (stm, t2)
+                if k > 0:
+                    f.order.append(name(b, k))
+    raise Unsupported(f"too many loops in {f.name}")
+
+
 def topo_order(f):
     succ = {}
     for b, (_, t) in f.blocks.items():
@@ -1644,7 +1788,7 @@ def merge_states(states):
                 mem[k] = a
             else:
                 try:
-                    mem[k] = ite_val(s.pc, b, a)
+                    mem[k] = ite_val(s.pc, b, a, (s, acc))
                 except Unsupported as e:
                     # possibly a temporary that is dead at the join; if it is ever read the obligation is inconclusive
                     mem[k] = Poison(str(e))
